@@ -24,6 +24,7 @@ EXPLANATION = (
     "never parenthesised; T7 Not.__repr__ puts a negated conjunction or disjunction in parentheses and nothing else. Equality of the re-parsed term for all terms is not decided."
     " Added after seed round 6: T6 also covers prefix operators; T8 a conjunction, disjunction or clause met as a subterm by Term.__repr__ is printed in parentheses and not captured by an earlier branch with a text made for another context; T9 And.__repr__ / Or.__repr__ parenthesise an operand that would regroup (left operand of the same kind, Or under And)."
     " Added after seed round 7: T10 a prefix minus is folded into a literal only when the operand is a number."
+    " Added after seed round 8: T11 is_lower / is_upper accept every letter on which _token_action starts an identifier."
 )
 TECHNIQUE = "static analysis: CFG must-facts (length guards with short-circuit edges), table/range agreement"
 LEVEL_TEXT = EXPLANATION
